@@ -206,7 +206,73 @@ def run(res, tier, seed, replay):
         res.sample({"content": cases[n_short + 7][0][:40].decode("latin1") + "...", "index": cases[n_short + 7][1],
                     "impl": impl[n_short + 7][:60] + "..."})
     res.notes["input_distribution"] = {"cases": len(cases), "max_len_exhaustive": maxlen, "outcomes": dist}
+    e2e_bad = [] if replay and "project" not in rp else project_stage(res, tier, seed, rp if replay else None)
+    for what, pj, o in e2e_bad[:3]:
+        res.violation("rejected project: %s" % what, {"project": [(C.hx(n), C.hx(c)) for n, c in pj], "outcome": o[:300]})
+    if e2e_bad:
+        return
     judge(res, pr, corr_bad, spec_bad)
+
+
+def project_stage(res, tier, seed, rp):
+    """whole rejected projects: the diagnostic's file exists, the index is inside it, the line agrees with the index; for the
+    type-chain family (a semantic error deep inside the last type of a reference chain, intermediate types in short files) the
+    index lies inside the body of the type that contains the fault"""
+    import random
+    from .. import proj as P
+    from . import c01 as M1
+    rng = random.Random(seed)
+    if rp:
+        projects = [([(C.unhx(n).decode("latin1"), C.unhx(c)) for n, c in rp["project"]], None)]
+    else:
+        projects = [(pj, "chain") for pj in M1.type_chain_projects(rng, tier == "quick")]
+        projects += [(pj, None) for pj in M1.slot_matrix()]
+        from .. import scancheck as S
+        projects += [(pj, None) for pj in M1.hostile_projects(rng, S.fixture_files(), True)]
+    outs = C.run_sharded("harness", "fn", [P.run_line("out=sha", pj) for pj, _ in projects])
+    res.count(len(projects))
+    bad = []
+    dist = {}
+    for (pj, fam), o in zip(projects, outs):
+        st, d = P.parse(o)
+        dist[st] = dist.get(st, 0) + 1
+        if st == "panic":
+            bad.append(("the diagnostic could not be produced: %s" % C.unhx(d.get("msg", "-")).decode("latin1")[:200], pj, o))
+            continue
+        if st != "err" or "file" not in d:
+            continue
+        fname = C.unhx(d["file"]).decode("latin1")
+        files = {(n.decode("latin1") if isinstance(n, bytes) else n): (c.encode("latin1") if isinstance(c, str) else c) for n, c in pj}
+        if fname not in files:
+            base = {n.split("/")[-1]: n for n in files}
+            if fname.split("/")[-1] in base:
+                fname = base[fname.split("/")[-1]]
+        if fname not in files:
+            if fname:
+                bad.append(("the diagnostic names the file %r which is not part of the project" % fname, pj, o))
+            continue
+        content = files[fname]
+        idx, line = int(d.get("idx", 0)), int(d.get("line", 0))
+        if idx > len(content):
+            bad.append(("index %d lies beyond the end of %s (%d bytes)" % (idx, fname, len(content)), pj, o))
+            continue
+        if idx or line:
+            res.nontrivial((fname, idx, content))
+        want = spec_line(content, idx, spec_detect_nl(content))
+        if line != want and not (idx == 0 and line == 0):
+            bad.append(("line %d does not agree with index %d of %s (line %d)" % (line, idx, fname, want), pj, o))
+            continue
+        if fam == "chain":
+            a = content.find(b'"bad"')
+            if a < 0:
+                bad.append(("the fault is in another file than %s" % fname, pj, o))
+                continue
+            t0 = content.rfind(b"TYPE @", 0, a)
+            t1 = content.find(b"\n  }\n", a) + 5
+            if not (t0 <= idx <= t1):
+                bad.append(("index %d of %s lies outside the TYPE that contains the fault (bytes %d..%d)" % (idx, fname, t0, t1), pj, o))
+    res.notes["project_stage"] = {"projects": len(projects), "verdicts": dist}
+    return bad
 
 
 def judge(res, pr, corr_bad, spec_bad):
